@@ -48,16 +48,17 @@ type Run struct {
 	Level    string
 	start    time.Time
 
-	mu          sync.Mutex
-	Coverage    map[string]interface{}
-	Assumptions []string
-	findings    []Finding
-	samples     []interface{}
-	distinct    map[string]int
-	outcomes    map[string]int
-	counters    map[string]int64
-	known       []Known
-	notes       []string
+	mu            sync.Mutex
+	Coverage      map[string]interface{}
+	Assumptions   []string
+	findings      []Finding
+	samples       []interface{}
+	distinct      map[string]int
+	outcomes      map[string]int
+	counters      map[string]int64
+	known         []Known
+	notes         []string
+	findingCounts map[string]int
 }
 
 func NewRun(property, level string) *Run {
@@ -141,14 +142,28 @@ func (r *Run) Note(format string, a ...interface{}) {
 // Fail records a finding.
 func (r *Run) Fail(f Finding) {
 	r.mu.Lock()
-	r.findings = append(r.findings, f)
+	k := f.Clause + "|" + f.Signature
+	if r.findingCounts == nil {
+		r.findingCounts = map[string]int{}
+	}
+	r.findingCounts[k]++
+	if r.findingCounts[k] <= maxRetainedPerGroup || os.Getenv("VERIF_DEBUG") != "" {
+		r.findings = append(r.findings, f)
+	}
 	r.mu.Unlock()
 }
+
+// maxRetainedPerGroup bounds how many findings of one (clause, signature) group are kept in memory; all are counted.
+const maxRetainedPerGroup = 20
 
 func (r *Run) NumFindings() int {
 	r.mu.Lock()
 	defer r.mu.Unlock()
-	return len(r.findings)
+	n := 0
+	for _, v := range r.findingCounts {
+		n += v
+	}
+	return n
 }
 
 // Finish writes the evidence file, prints the protocol lines and returns the exit code.
@@ -179,7 +194,6 @@ func (r *Run) Finish() int {
 					knownHits[f.Signature] = g
 					knownOrder = append(knownOrder, f.Signature)
 				}
-				g.n++
 				continue
 			}
 		}
@@ -190,7 +204,17 @@ func (r *Run) Finish() int {
 			violGroups[key] = g
 			violOrder = append(violOrder, key)
 		}
-		g.n++
+	}
+	for sig, g := range knownHits {
+		g.n = 0
+		for k, v := range r.findingCounts {
+			if strings.HasSuffix(k, "|"+sig) {
+				g.n += v
+			}
+		}
+	}
+	for key, g := range violGroups {
+		g.n = r.findingCounts[key]
 	}
 
 	if os.Getenv("VERIF_DEBUG") != "" {
@@ -324,13 +348,14 @@ func (d *Deadline) Hit() bool               { return time.Now().After(d.t) }
 // ---------------------------------------------------------------------------
 
 type partial struct {
-	Findings []Finding
-	Samples  []interface{}
-	Distinct map[string]int
-	Outcomes map[string]int
-	Counters map[string]int64
-	Notes    []string
-	Coverage map[string]interface{}
+	Findings      []Finding
+	Samples       []interface{}
+	Distinct      map[string]int
+	Outcomes      map[string]int
+	Counters      map[string]int64
+	Notes         []string
+	Coverage      map[string]interface{}
+	FindingCounts map[string]int
 }
 
 // Sharded runs body in n child processes (or directly when n <= 1). In a child it returns after body and
@@ -344,7 +369,7 @@ func (r *Run) Sharded(n int, body func(shard, n int)) {
 		}
 		body(i, m)
 		r.mu.Lock()
-		p := partial{Findings: r.findings, Samples: r.samples, Distinct: r.distinct, Outcomes: r.outcomes, Counters: r.counters, Notes: r.notes, Coverage: r.Coverage}
+		p := partial{FindingCounts: r.findingCounts, Findings: r.findings, Samples: r.samples, Distinct: r.distinct, Outcomes: r.outcomes, Counters: r.counters, Notes: r.notes, Coverage: r.Coverage}
 		bz, err := json.Marshal(p)
 		r.mu.Unlock()
 		if err != nil {
@@ -403,6 +428,12 @@ func (r *Run) Sharded(n int, body func(shard, n int)) {
 		}
 		r.mu.Lock()
 		r.findings = append(r.findings, p.Findings...)
+		if r.findingCounts == nil {
+			r.findingCounts = map[string]int{}
+		}
+		for k, v := range p.FindingCounts {
+			r.findingCounts[k] += v
+		}
 		for _, s := range p.Samples {
 			if len(r.samples) < 5 {
 				r.samples = append(r.samples, s)
@@ -427,6 +458,24 @@ func (r *Run) Sharded(n int, body func(shard, n int)) {
 				}
 				continue
 			}
+			if strings.HasSuffix(k, "_completed") {
+				// depth / bound completed: the run as a whole completed the minimum over its shards
+				if cur, seen := r.Coverage[k]; seen {
+					if toF(v) < toF(cur) {
+						r.Coverage[k] = v
+					}
+					continue
+				}
+			}
+			if strings.HasSuffix(k, "_fixpoint") {
+				if cur, seen := r.Coverage[k]; seen {
+					if b, ok := v.(bool); ok && !b {
+						r.Coverage[k] = false
+					}
+					_ = cur
+					continue
+				}
+			}
 			if _, seen := r.Coverage[k]; !seen {
 				r.Coverage[k] = v
 			}
@@ -437,3 +486,25 @@ func (r *Run) Sharded(n int, body func(shard, n int)) {
 
 // IsShardChild tells whether this process is a shard worker.
 func IsShardChild() bool { return os.Getenv("VERIF_SHARD") != "" }
+
+// NumDistinct is the number of distinct keys recorded so far.
+func (r *Run) NumDistinct() int {
+	r.mu.Lock()
+	defer r.mu.Unlock()
+	return len(r.distinct)
+}
+
+func toF(v interface{}) float64 {
+	switch x := v.(type) {
+	case json.Number:
+		f, _ := x.Float64()
+		return f
+	case float64:
+		return x
+	case int:
+		return float64(x)
+	case int64:
+		return float64(x)
+	}
+	return 0
+}
